@@ -110,6 +110,11 @@ def check_run(r, cfg):
             for tag in ("h_bm", "h_am"):
                 if [e[2] for e in EV if e[0] == tag and e[1] == m.market_id] != list(range(nsteps)):
                     raise V_("Simulator._trigger_event_before_step_for_market", "C13 market-step hooks exactly once per market and step, in time order", (tag, m.market_id))
+    # ---- C10 one session-begin and one session-end record per configured session, in session order (also for a session of zero steps)
+    want_ses = [x for ses in s.sessions for x in (("L_sesb", ses.session_id), ("L_sese", ses.session_id))]
+    got_ses = [(e[0], e[1]) for e in EV if e[0] in ("L_sesb", "L_sese")]
+    if got_ses != want_ses:
+        raise V_(R + "._run", "C10 exactly one session-begin and one session-end record per configured session, in order", dict(got=got_ses[:8], expected=want_ses[:8]))
     # ---- C06 clock and sessions
     nsteps = sum(ses.iteration_steps for ses in s.sessions)
     start = 0
